@@ -112,7 +112,7 @@ fn num(k: u8) -> Y {
 
 const NTHS: &[&str] = &[
   "2n+1", "-n+3", "n", "odd", "+n", "-n", "0n+0", "99999999999n+1", "n-2147483647", "n+2147483647", "2147483647n", "-2147483647n-2147483647", "2147483648", "4294967297", "1 n + 2", "n+", "４",
-  "2n+1 of foo", "",
+  "2n+1 of foo", "", "２n+1", "n+٣", "²n", "n+４", "１", "2n+１", "৩n",
 ];
 
 const RULE_KEYS: &[&str] = &[
@@ -252,7 +252,7 @@ fn render_doc(d: &DocV, idx: usize) -> Y {
   // valid by default: a kind-determining atom the adversarial keys are added to
   if d.lang % 5 != 0 || !(all || d.focus == 0) {
     if let Y::Mapping(r) = &mut rule {
-      let (k, v) = [("pattern", "foo($A)"), ("pattern", "$F($$$ARGS)"), ("kind", "call_expression"), ("kind", "identifier"), ("pattern", "console.log($A)")][(d.lang / 5) as usize % 5];
+      let (k, v) = [("pattern", "foo($A)"), ("pattern", "$F($$$ARGS)"), ("kind", "call_expression"), ("kind", "identifier"), ("pattern", "console.log($A)"), ("pattern", "$A")][(d.lang / 5) as usize % 6];
       if d.lang % 3 != 0 {
         // drop the random keys that most often make the rule invalid
         for bad in ["bogusKey", "context", "selector", "strictness", "position", "reverse", "ofRule", "stopBy", "field"] {
@@ -355,7 +355,15 @@ fn render_doc(d: &DocV, idx: usize) -> Y {
   if !d.constraints.is_empty() && (all || d.focus == 2) {
     let mut c = Mapping::new();
     for (k, r) in &d.constraints {
-      c.insert(ys(["A", "B", "ARGS", "ZZ", ""][*k as usize % 5]), render_rule(r, 0));
+      let key = ys(["A", "B", "ARGS", "ZZ", ""][*k as usize % 5]);
+      if k % 7 == 6 {
+        // a constraint that goes back to a utility (or to this very document when it is one)
+        let mut mm = Mapping::new();
+        mm.insert(ys("matches"), ys(["u0", "doc0", "doc1", "g0"][(*k as usize / 7) % 4]));
+        c.insert(key, Y::Mapping(mm));
+      } else {
+        c.insert(key, render_rule(r, 0));
+      }
     }
     m.insert(ys("constraints"), Y::Mapping(c));
   }
@@ -389,6 +397,10 @@ fn render_doc(d: &DocV, idx: usize) -> Y {
           "convert"
         }
         3 => {
+          // a rewrite whose source is the output of the previous transformation
+          if i > 0 && e % 3 == 0 {
+            inner.insert(ys("source"), ys(&format!("$T{}", i - 1)));
+          }
           inner.insert(ys("rewriters"), Y::Sequence(vec![ys(&format!("rw{}", b % 3)), ys(&s(*c))]));
           if e % 2 == 0 {
             inner.insert(ys("joinBy"), ys(&s(*e)));
@@ -423,6 +435,25 @@ fn render_doc(d: &DocV, idx: usize) -> Y {
           rm.insert(ys("rule"), Y::Mapping(k));
         } else {
           rm.insert(ys("rule"), render_rule(r, 0));
+        }
+        if a % 5 == 3 {
+          // a rewriter with its own transform: rewrites what it matched with rewriters again
+          let mut rw = Mapping::new();
+          rw.insert(ys("source"), ys(["$X", "$A", "$$$ARGS"][(*a as usize / 5) % 3]));
+          rw.insert(ys("rewriters"), Y::Sequence(vec![ys(&format!("rw{}", (i + (*a as usize / 16)) % 3))]));
+          let mut t = Mapping::new();
+          t.insert(ys("rewrite"), Y::Mapping(rw));
+          let mut tm = Mapping::new();
+          tm.insert(ys("Y"), Y::Mapping(t));
+          rm.insert(ys("transform"), Y::Mapping(tm));
+          let mut k = Mapping::new();
+          k.insert(ys("pattern"), ys(["$X", "foo($A)", "$F($$$ARGS)"][(*a as usize / 5) % 3]));
+          if (*a as usize / 5) % 3 == 0 {
+            k.insert(ys("kind"), ys("number"));
+          }
+          rm.insert(ys("rule"), Y::Mapping(k));
+          rm.insert(ys("fix"), ys("$Y"));
+          return Y::Mapping(rm);
         }
         if let Some(f) = fix {
           if f % 4 == 0 {
@@ -738,8 +769,14 @@ pub fn body(case: &Case, _st: &mut Stats) -> CheckResult {
       Ok(())
     }
     Role::UtilRule => {
-      let parsed = ast_grep_config::from_str(&case.yaml).map(DeserializeEnv::<SupportLang>::parse_global_utils);
-      let Ok(Ok(globals)) = parsed else {
+      // one utility per YAML document (the CLI reads one per file of utilDirs)
+      fn docs_of<'de, T: Deserialize<'de>>(yaml: &'de str) -> Option<Vec<T>> {
+        serde_yaml::Deserializer::from_str(yaml).map(|d| T::deserialize(d).ok()).collect()
+      }
+      let Some(utils) = docs_of(&case.yaml) else {
+        return Ok(());
+      };
+      let Ok(globals) = DeserializeEnv::<SupportLang>::parse_global_utils(utils) else {
         return Ok(());
       };
       // a rule that uses every global utility it can name
@@ -792,15 +829,36 @@ fn cli_body(case: &Case) -> CheckResult {
   dir.write("src/b.py", b"print(a)\nfoo(1)\n");
   let limit = std::time::Duration::from_secs(15);
   let out = match case.role {
-    Role::Rule | Role::UtilRule => {
+    Role::Rule => {
       dir.write("rule.yml", case.yaml.as_bytes());
       cli::sgv_once(&["scan", "-r", "rule.yml", "--json=stream", "src"], &dir.path, None, limit)
+    }
+    Role::UtilRule => {
+      // a project whose utilDirs holds one file per document and whose rules use them
+      dir.write("sgconfig.yml", b"ruleDirs: [rules]\nutilDirs: [utils]\n");
+      for (i, d) in case.yaml.split("\n---\n").enumerate() {
+        dir.write(&format!("utils/u{i}.yml"), d.as_bytes());
+      }
+      dir.write(
+        "rules/use.yml",
+        b"id: use0\nlanguage: JavaScript\nrule: {kind: identifier, matches: doc0}\n---\nid: use1\nlanguage: JavaScript\nrule: {kind: number, matches: doc1}\n---\nid: use2\nlanguage: JavaScript\nrule: {kind: call_expression, matches: doc0}\n",
+      );
+      cli::sgv_once(&["scan", "--json=stream", "src"], &dir.path, None, limit)
     }
     Role::TestFile => {
       dir.write("sgconfig.yml", b"ruleDirs: [rules]\ntestConfigs:\n- testDir: tests\n");
       dir.write("rules/r.yml", b"id: no-console\nlanguage: JavaScript\nrule: {pattern: console.log($A)}\n");
       dir.write("tests/t-test.yml", case.yaml.as_bytes());
-      cli::sgv_once(&["test", "--skip-snapshot-tests"], &dir.path, None, limit)
+      // every other document also exercises the snapshot path: an existing snapshot directory with
+      // a snapshot of this rule, one whose test case is gone and one that is not a snapshot at all
+      if case.yaml.len() % 2 == 0 {
+        dir.write("tests/__snapshots__/no-console-snapshot.yml", b"id: no-console\nsnapshots:\n  console.log(a):\n    labels:\n    - source: console.log(a)\n      style: primary\n      start: 0\n      end: 14\n");
+        dir.write("tests/__snapshots__/gone-snapshot.yml", b"id: gone\nsnapshots:\n  x:\n    labels: []\n");
+        dir.write("tests/__snapshots__/junk-snapshot.yml", case.yaml.as_bytes());
+        cli::sgv_once(&["test", "-U"], &dir.path, None, limit)
+      } else {
+        cli::sgv_once(&["test", "--skip-snapshot-tests"], &dir.path, None, limit)
+      }
     }
     Role::ProjectConfig => {
       dir.write("sgconfig.yml", case.yaml.as_bytes());
@@ -812,7 +870,8 @@ fn cli_body(case: &Case) -> CheckResult {
     // re-run twice before calling it a hang
     for _ in 0..2 {
       let again = match case.role {
-        Role::Rule | Role::UtilRule => cli::sgv_once(&["scan", "-r", "rule.yml", "--json=stream", "src"], &dir.path, None, limit * 2),
+        Role::Rule => cli::sgv_once(&["scan", "-r", "rule.yml", "--json=stream", "src"], &dir.path, None, limit * 2),
+        Role::UtilRule => cli::sgv_once(&["scan", "--json=stream", "src"], &dir.path, None, limit * 2),
         Role::TestFile => cli::sgv_once(&["test", "--skip-snapshot-tests"], &dir.path, None, limit * 2),
         Role::ProjectConfig => cli::sgv_once(&["scan", "--json=stream"], &dir.path, None, limit * 2),
       };
@@ -854,8 +913,13 @@ pub fn check(case: &Case, st: &mut Stats) -> CheckResult {
   if case.cli || matches!(case.role, Role::TestFile | Role::ProjectConfig) {
     st.label("via_cli");
     return cli_body(case).map_err(|f| {
-      if f.signature == "C11:cli:stack-overflow" && matches!(case.role, Role::Rule | Role::UtilRule) && may_contain_round_trip_cycle(&case.yaml) {
+      let rule_role = matches!(case.role, Role::Rule | Role::UtilRule);
+      if f.signature == "C11:cli:stack-overflow" && rule_role && may_contain_round_trip_cycle(&case.yaml) {
         Fail::new("C11:stack-overflow:utility-cycle-through-relational-round-trip", f.message)
+      } else if f.signature == "C11:cli:stack-overflow" && rule_role && has_self_rewriting_rewriter(&case.yaml) {
+        Fail::new("C11:stack-overflow:rewriter-rewrites-its-own-match", f.message)
+      } else if f.signature == "C11:cli:stack-overflow" && rule_role && has_constraint_back_reference(&case.yaml) {
+        Fail::new("C11:stack-overflow:constraint-matches-the-rule-it-belongs-to", f.message)
       } else {
         f
       }
@@ -874,6 +938,8 @@ pub fn check(case: &Case, st: &mut Stats) -> CheckResult {
       let round_trip = may_contain_round_trip_cycle(&case.yaml);
       let sig = match f.signature.as_str() {
         "crash:stack-overflow" if round_trip => "C11:stack-overflow:utility-cycle-through-relational-round-trip".to_string(),
+        "crash:stack-overflow" if has_self_rewriting_rewriter(&case.yaml) => "C11:stack-overflow:rewriter-rewrites-its-own-match".to_string(),
+        "crash:stack-overflow" if has_constraint_back_reference(&case.yaml) => "C11:stack-overflow:constraint-matches-the-rule-it-belongs-to".to_string(),
         "crash:stack-overflow" => "C11:stack-overflow".to_string(),
         "hang" => "C11:hang".to_string(),
         s if s.starts_with("panic:") => format!("C11:{s}"),
@@ -1033,6 +1099,73 @@ pub fn decode_bytes(data: &[u8]) -> Case {
       planted: None,
     },
   }
+}
+
+fn yaml_docs(yaml: &str) -> Vec<Y> {
+  use serde::Deserialize;
+  serde_yaml::Deserializer::from_str(yaml).filter_map(|de| Y::deserialize(de).ok()).collect()
+}
+
+/// Structural recognition of a listed finding: some rewriter's own transform rewrites with a
+/// set of rewriters that contains the rewriter itself (applied to the node it matched, it never ends)
+pub fn has_self_rewriting_rewriter(yaml: &str) -> bool {
+  fn mentions(v: &Y, id: &str) -> bool {
+    match v {
+      Y::Mapping(m) => m.iter().any(|(k, x)| {
+        if k.as_str() == Some("rewriters") {
+          x.as_sequence().map(|s| s.iter().any(|r| r.as_str() == Some(id))).unwrap_or(false)
+        } else {
+          mentions(x, id)
+        }
+      }),
+      Y::Sequence(s) => s.iter().any(|x| mentions(x, id)),
+      _ => false,
+    }
+  }
+  yaml_docs(yaml).iter().any(|d| {
+    d.get("rewriters").and_then(|r| r.as_sequence()).map(|rs| {
+      rs.iter().any(|r| match (r.get("id").and_then(|i| i.as_str()), r.get("transform")) {
+        (Some(id), Some(t)) => mentions(t, id),
+        _ => false,
+      })
+    }).unwrap_or(false)
+  })
+}
+
+/// Structural recognition of a listed finding: a constraint of a rule `matches` a utility that is,
+/// or leads back to, the rule the constraint belongs to (here: any `matches` below `constraints`
+/// that names a document id or a utility of the same file)
+pub fn has_constraint_back_reference(yaml: &str) -> bool {
+  fn refs(v: &Y, out: &mut Vec<String>) {
+    match v {
+      Y::Mapping(m) => {
+        for (k, x) in m {
+          if k.as_str() == Some("matches") {
+            if let Some(t) = x.as_str() {
+              out.push(t.to_string());
+            }
+          }
+          refs(x, out);
+        }
+      }
+      Y::Sequence(s) => s.iter().for_each(|x| refs(x, out)),
+      _ => {}
+    }
+  }
+  let docs = yaml_docs(yaml);
+  let mut names: Vec<String> = docs.iter().filter_map(|d| d.get("id").and_then(|i| i.as_str()).map(String::from)).collect();
+  for d in &docs {
+    if let Some(Y::Mapping(u)) = d.get("utils") {
+      names.extend(u.keys().filter_map(|k| k.as_str().map(String::from)));
+    }
+  }
+  docs.iter().any(|d| {
+    let mut out = vec![];
+    if let Some(c) = d.get("constraints") {
+      refs(c, &mut out);
+    }
+    out.iter().any(|r| names.contains(r))
+  })
 }
 
 /// Structural recognition of the listed round-trip cycle finding: some document has a utility
